@@ -172,9 +172,10 @@ Definition spec_fire_ok (p : params) (i : sched_in) (f : fire_in) (o : fire_out)
            nodupb N.eqb (map (fun m => snd (fst m)) got)
            && forallb (fun m => let '(ms, mr, mv, mx) := m in
                                 (ms =? s) && (mr =? r) && inb N.eqb mv sgn && sg_eqb mx (SgRoot mv (s / spe p) r)) got
-           (* completeness: every member with an account and a signature has its message, whatever
-              the other members lack; only failures of a whole batch excuse *)
-           && (if sel_fault || f_root_err f || f_submit_err f then true
+           (* completeness: every member with an account and a signature has its message in the
+              payload handed to the submitter (whether or not the submitter then fails), whatever
+              the other members lack; only a signer failing for a whole batch excuses *)
+           && (if sel_fault || f_root_err f then true
                else subsetb msg_eqb (want_msgs r) got)
            (* aggregation *)
            && (let aggs := filter (spec_selected p f) pairs in
